@@ -121,7 +121,21 @@ SAMPLES = {
 }
 
 
-def sample_arms(chk, prog, names=("shepperd", "hughes", "chiaverini", "sarabandi")):
+def _more_samples(n=24):
+    """deterministic extra rotations for the thorough tier: a low-discrepancy sweep of the axis and of the angle, including angles close to pi"""
+    import math
+    out = {}
+    for k in range(n):
+        t = math.pi * (0.02 + 0.96 * ((k * 0.6180339887) % 1.0)) if k % 6 else math.pi - 10 ** (-2 - (k // 6))
+        zc = 1 - 2 * ((k * 0.7548776662) % 1.0)
+        ph = 2 * math.pi * ((k * 0.5698402910) % 1.0)
+        ax = (math.sqrt(1 - zc * zc) * math.cos(ph), math.sqrt(1 - zc * zc) * math.sin(ph), zc)
+        s_ = math.sin(t / 2)
+        out["sweep %02d (angle %.4f rad)" % (k, t)] = (ax[0] * s_, ax[1] * s_, ax[2] * s_)
+    return out
+
+
+def sample_arms(chk, prog, names=("shepperd", "hughes", "chiaverini", "sarabandi"), tier="quick"):
     """INVERT.sample: each method, run on E(q) along the single decision path that a sample rotation takes (dominant component, almost a half-turn with a negative
     leading axis component, almost the identity ...), returns a quaternion whose matrix is E(q) -- as exact closed forms of that path.  Whatever thresholds and
     pivots the code uses, the arm a realistic rotation of each kind reaches is decided."""
@@ -132,7 +146,10 @@ def sample_arms(chk, prog, names=("shepperd", "hughes", "chiaverini", "sarabandi
     for name in names:
         f = prog.func(ORI + "::" + name)
         chk.touch(f)
-        for label, (x_, y_, z_) in SAMPLES.items():
+        pool = dict(SAMPLES)
+        if tier == "thorough":
+            pool.update(_more_samples())
+        for label, (x_, y_, z_) in pool.items():
             if z_ is None:
                 w_ = 5e-5
                 z_ = math.sqrt(max(0.0, 1 - w_ * w_ - x_ * x_ - y_ * y_))
@@ -339,7 +356,7 @@ def run(chk, prog, tier):
     shepperd(chk, prog)
     chiaverini_hughes(chk, prog)
     gate_bands(chk, prog)
-    sample_arms(chk, prog)
+    sample_arms(chk, prog, tier=tier)
     # the four threshold tests d? > eta; the fifth comparison (q[0] > 0) is decided generically: q[0] = |w| > 0
     all16 = list(itertools.product((True, False), repeat=4))
     quick = [(True, True, True, True), (False, True, True, True), (True, False, False, False), (False, False, False, False), (False, True, False, True), (True, True, False, False)]
